@@ -44,6 +44,14 @@ CHECKS = {
          "Every signature/call combination within the bounds is rendered through a local definition, an import and an aliased import and compared with the reference binding; every recursion graph is run in a fresh process whose death (stack overflow) or hang is a violation, and must yield an execution error.",
          "Process isolation with a 64 MB stack cap makes unbounded recursion observable within a second; reference binding: DESIGN.md Appendix A.5.",
          "DESIGN.md §3 C13"),
+ "C10": ("bounded-exhaustive generation of inheritance chains (depth, per-level block options absent/override/override+Super/new nested block, five base placements) rendered at every level against a reference block resolution; invalid shapes must be compile errors",
+         "All chains within the bounds are served from an in-memory loader; the leaf is compiled first, then every level and finally the base again are rendered and compared with an independent resolution (most-derived wins, Super = next less-derived, empty at the bottom, junk outside blocks ignored, base unaffected by its children).",
+         "Reference resolution: DESIGN.md Appendix A.6. Block bodies are marker texts, so any wrong definition or Super level shows in the output.",
+         "DESIGN.md §3 C10"),
+ "C19": ("bounded-exhaustive enumeration of filter chains (length <=3/4) x inputs x expression positions and the filter tag, compared with the direct composition of the public ApplyFilter; every registered filter per route; unknown names at every position; double registration",
+         "Every chain within the bound at every position where a filter can be written is rendered and compared with the left-to-right composition of ApplyFilter on the same values (printed form, truthiness, iteration, error-ness); arguments bound by enclosing constructs check scoping of parameters; operators around a filtered operand check binding strength.",
+         "The oracle is the implementation's ApplyFilter, as the property states; the filter list comes from the registry hook, so a newly added filter is covered.",
+         "DESIGN.md §3 C19"),
 }
 
 NOT_YET = {}
